@@ -129,7 +129,7 @@ impl Property for C18 {
                 "os_entropy": false,
             });
         }
-        let kind = *rng.pick(&["star", "star_join", "group", "group", "distinct_real", "distinct_real", "join_real", "join_int", "join_int_real", "error_row", "group_special_real", "group_special_real", "name_lookup", "many_groups", "history", "dup_names", "tz", "env", "join_order"]);
+        let kind = *rng.pick(&["star", "star_join", "group", "group", "distinct_real", "distinct_real", "join_real", "join_int", "join_int_real", "error_row", "group_special_real", "group_special_real", "name_lookup", "many_groups", "history", "dup_names", "tz", "env", "join_order", "star_inline"]);
         let zero_heavy = kind == "distinct_real" || kind == "join_real" || kind == "group_special_real" || rng.chance(1, 4);
         // REAL values that are not ordinary numbers: NaN, infinities (legal literals for a REAL column)
         let special = kind == "group_special_real";
@@ -179,6 +179,8 @@ impl Property for C18 {
         let stmt = match kind {
             "join_order" => format!("SELECT v.x FROM w INNER JOIN v::'{}' ON w.c0 = v.c0", JOINED_PATH),
             "star" => "SELECT * FROM w".to_owned(),
+            // a table that mixes inline-regex columns with columns of a named pattern
+            "star_inline" => "SELECT * FROM mixed".to_owned(),
             "star_join" => format!("SELECT * FROM w {} JOIN v::'{}' ON w.c0 = v.c0", rng.pick(&["INNER", "OUTER"]), JOINED_PATH),
             "group" => format!(
                 "SELECT {}COUNT(*) AS a0, SUM(c1) AS a1, MIN(c1) AS a2, MAX(c4) AS a3, AVG(c2) AS a4, COUNT(DISTINCT c2) AS a5, COUNT(DISTINCT c3) AS a6, STDDEV(c5) AS a7 FROM w {}HAVING COUNT(*) >= 1 AND SUM(c4) > 0 - 100 AND MAX(c7) < 1000 AND MIN(c1) > 0 - 1000 AND COUNT(DISTINCT c9) >= 1",
@@ -236,6 +238,9 @@ impl Property for C18 {
         for i in 0..n_after {
             defs.push(' ');
             defs.push_str(&decoy(4 + i));
+        }
+        if kind == "star_inline" {
+            defs.push_str(" CREATE TABLE mixed(line = '^W (\\\\S+) (\\\\S+)', 'W \\\\S+ \\\\S+ (\\\\S+)' => i3 TEXT, line[1] => n1 TEXT, 'W \\\\S+ \\\\S+ \\\\S+ (\\\\S+)' => i4 TEXT, line[2] => n2 TEXT, '^W (\\\\S+)' => i1 TEXT);");
         }
         if kind == "name_lookup" {
             // tables whose names differ from the queried spelling only by case / a suffix
@@ -393,6 +398,48 @@ impl Property for C18 {
             }
             out.probe("os_entropy_runs", 1);
         }
+        if kind == "star" && s0 == "Ok" {
+            // "`*` columns in definition order", in every output format
+            for r in r0.iter() {
+                let pos: Vec<Option<usize>> = (0..10).map(|i| match format.as_str() {
+                    "json" => r.find(&format!("\"c{}\":", i)),
+                    "csv" => None,
+                    _ => r.find(&format!("c{}: ", i)),
+                }).collect();
+                if pos.iter().all(|p| p.is_some()) && pos.windows(2).any(|w| w[0] >= w[1]) {
+                    out.violate("c18.column_order", format!("{}: columns of `*` are not in definition order c0..c9 in the record {}", stmt, r), features.clone());
+                    return out;
+                }
+            }
+            if format == "csv" {
+                if let Some(h) = r0.first() {
+                    let names: Vec<&str> = h.split(';').collect();
+                    let want: Vec<String> = (0..10).map(|i| format!("c{}", i)).collect();
+                    if names.len() == 10 && names.iter().all(|n| n.starts_with('c')) && names.iter().map(|n| n.to_string()).collect::<Vec<_>>() != want {
+                        out.violate("c18.column_order", format!("{}: CSV header {} is not the definition order c0..c9", stmt, h), features.clone());
+                        return out;
+                    }
+                }
+            }
+            out.probe("star_column_order_checked", 1);
+        }
+        if kind == "star_inline" && s0 == "Ok" {
+            // definition order of the mixed table: i3, n1, i4, n2, i1
+            for r in r0.iter() {
+                let pos: Vec<Option<usize>> = ["i3", "n1", "i4", "n2", "i1"].iter().map(|c| match format.as_str() {
+                    "json" => r.find(&format!("\"{}\":", c)),
+                    "csv" => if r.contains("i3;") || r.contains(";i3") { r.find(c) } else { None },
+                    _ => r.find(&format!("{}: ", c)),
+                }).collect();
+                if pos.iter().all(|p| p.is_some()) && pos.windows(2).any(|w| w[0] >= w[1]) {
+                    out.violate("c18.column_order", format!("{}: columns of `*` are not in definition order i3, n1, i4, n2, i1 in the record {}", stmt, r), features.clone());
+                    return out;
+                }
+                if pos.iter().all(|p| p.is_some()) {
+                    out.probe("star_inline_column_order_checked", 1);
+                }
+            }
+        }
         if kind == "join_order" && s0 == "Ok" {
             // "joined partners in joined-file order": x is the position of the joined row in its file
             let mut expect: Vec<i64> = Vec::new();
@@ -439,7 +486,9 @@ impl Property for C18 {
         }
         if kind != "name_lookup" && defs.matches("CREATE TABLE").count() > 2 {
             // "irrespective of which other tables are defined": the same query with only its own tables defined
-            let core = format!("{} {}", WIDE, JOINED);
+            // (plus the queried table itself where that is neither of the two)
+            let own = defs.find(" CREATE TABLE mixed(").map(|at| defs[at..].split_inclusive(");").next().unwrap_or("").to_owned()).unwrap_or_default();
+            let core = format!("{} {}{}", WIDE, JOINED, own);
             let mut b = make(Some(k0), 1);
             b.defs = core;
             let r = run(&mut out, "only the queried and the joined table defined", &b, false);
